@@ -193,6 +193,11 @@ func runC01(c C01Case, cs *kit.CaseStats) error {
 		lastKnown := known(last.ID)
 		if lastKnown {
 			cand := last.Hdr
+			if heavier := cand.SufficientlyHeavierThan(oldState); heavier && cand.Index.Height <= oldState.Index.Height {
+				cs.Class("candidate-heavier-but-not-longer")
+			} else if !heavier && cand.Index.Height > oldState.Index.Height {
+				cs.Class("candidate-longer-but-not-heavier")
+			}
 			if cand.SufficientlyHeavierThan(oldState) {
 				if last.Ledger == nil {
 					return fmt.Errorf("%s: the batch's last block %v heads a sufficiently heavier chain that contains an invalid block (%v), yet the call returned nil", where, last.Index(), last.Err)
